@@ -211,7 +211,7 @@ def run(res, tier, seed):
         for (c, r, reason) in bad:
             d = rz.describe(c)
             res.violation(what="C03 %s" % reason, reason=reason, build=profile, ret=r.get("ret"), alg=d.get("alg", d.get("op", d.get("ctl"))), pt=d.get("pt"), cpu=d.get("cpu"), filter=d.get("filter"),
-                          crop=c["opt"].get("crop"), fparam=c["opt"].get("fparam"), case=d)
+                          crop=c.get("opt", {}).get("crop"), fparam=c.get("opt", {}).get("fparam"), case=d)
     # (C) clip-table index for custom kernels on the portable path
     clip = gen_clip(tier, rng)
     # on the debug-assertion build: no panic while sum |w| < 4 (the documented head-room)
